@@ -430,6 +430,9 @@ Section StmtCorrect.
   Lemma chk_nil e b t st : st_pending st = [] -> chk_hybrid_dep e b t st = OK (e, st).
   Proof. intros H. unfold chk_hybrid_dep, bind, get. rewrite H. reflexivity. Qed.
 
+  Lemma hyb_nil e st : st_pending st = [] -> hyb_wrapped e st = OK (false, st).
+  Proof. intros H. unfold hyb_wrapped, bind, get, ret. rewrite H. reflexivity. Qed.
+
   Lemma decl_ty_ok ts sg w st : decl_ty ts sg w ->
     decl_type ts st = OK (ty_int sg w, st) /\ resolve_ty_c ts = Some (sg, w) /\ okw w.
   Proof.
@@ -529,14 +532,15 @@ Section StmtCorrect.
     do src0 <- compound_src cfg AAssign dest' src';
     do src'' <- ret src0;
     do asg <- mk_assign dest' src'';
+    do w <- hyb_wrapped asg;
     do r <- chk_hybrid_dep asg false false;
     match chained with
-    | None => ret (IAsg r src'')
+    | None => if w then ret (IEff r) else ret (IAsg r src'')
     | Some inner =>
         let '(sq, _) := mk_sequence [IEff r; IEff inner] in
         do _ <- touch;
         do r2 <- chk_hybrid_dep sq false false;
-        ret (IAsg r2 src'')
+        ret (IEff r2)
     end.
   Lemma lower_expr_asg l r :
     lower_expr cfg (EAssign AAssign l r) = (do il <- lower_expr cfg l; do ir <- lower_expr cfg r; asg_tail il ir).
@@ -677,7 +681,7 @@ Section StmtCorrect.
     { rewrite lower_stmt_expr, lower_expr_asg, lower_expr_op. cbn [lower_operand]. unfold asg_tail, bind, ret.
       step L1. step L2. fold dest. step C1. cbn [compound_src]. unfold ret.
       rewrite (mk_assign_reg dest src' st2 st3 n eq_refl eq_refl W1).
-      rewrite chk_nil by exact P3. reflexivity. }
+      rewrite ?hyb_nil by exact P3; rewrite chk_nil by exact P3. reflexivity. }
     split.
     { split; [exact Hok3|]. split; [exact X13|]. split; [repeat constructor|].
       intros HR Hrem HJ cs ms fuel cs' Hrel Himm Hce.
@@ -715,7 +719,7 @@ Section StmtCorrect.
       cbn [compound_src]. unfold ret.
       rewrite (mk_assign_var dest src' st2 x eq_refl).
       2:{ unfold dest. cbn [pv_kind]. destruct (String.eqb (substring 0 5 x) "h_tmp"); eauto. }
-      rewrite chk_nil by (eapply st_ext_pending; eassumption). reflexivity. }
+      rewrite ?hyb_nil by (eapply st_ext_pending; eassumption); rewrite chk_nil by (eapply st_ext_pending; eassumption). reflexivity. }
     split.
     { split; [exact Hok2|]. split; [exact X2|]. split; [repeat constructor|].
       intros HR Hrem HJ cs ms fuel cs' Hrel Himm Hce.
@@ -753,14 +757,15 @@ Section StmtCorrect.
                         else ret src0
                  end);
     do asg <- mk_assign dest' src'';
+    do w <- hyb_wrapped asg;
     do r <- chk_hybrid_dep asg false false;
     match chained with
-    | None => ret (IAsg r src'')
+    | None => if w then ret (IEff r) else ret (IAsg r src'')
     | Some inner =>
         let '(sq, _) := mk_sequence [IEff r; IEff inner] in
         do _ <- touch;
         do r2 <- chk_hybrid_dep sq false false;
-        ret (IAsg r2 src'')
+        ret (IEff r2)
     end.
   Lemma lower_expr_casg a l r :
     lower_expr cfg (EAssign a l r) = (do il <- lower_expr cfg l; do ir <- lower_expr cfg r; casg_tail a il ir).
@@ -852,7 +857,7 @@ Section StmtCorrect.
       destruct Ha as [-> | [-> | ->]]; unfold bind at 1; rewrite Hco; cbv beta iota; unfold bind at 1; rewrite Hcs;
       cbn [fx cfg_fx fx_compound_conv all_fixes]; unfold bind at 1; change (pv_ty dest) with (ty_int sg w); rewrite D1;
       unfold bind; rewrite (mk_assign_var dest src2 st2 x eq_refl);
-      try (rewrite chk_nil by exact Hp2; reflexivity);
+      try (rewrite ?hyb_nil by exact Hp2; rewrite chk_nil by exact Hp2; reflexivity);
       unfold dest, kx; cbn [pv_kind]; destruct (String.eqb (substring 0 5 x) "h_tmp"); eauto. }
     split.
     { split; [exact Hok2|]. split; [exact X2|]. split; [repeat constructor|].
@@ -906,7 +911,7 @@ Section StmtCorrect.
     unfold bind at 1. unfold ret at 1. unfold bind at 1. unfold ret at 1. cbv beta iota.
     destruct Ha as [-> | [-> | ->]]; unfold bind at 1; rewrite Hco; cbv beta iota; unfold bind at 1; rewrite Hcs;
     cbn [fx cfg_fx fx_compound_conv all_fixes]; unfold bind at 1; rewrite D1;
-    unfold bind; rewrite Hm; rewrite chk_nil by exact Hp; reflexivity.
+    unfold bind; rewrite Hm; rewrite ?hyb_nil by exact Hp; rewrite chk_nil by exact Hp; reflexivity.
   Qed.
 
   Lemma read_lval_reg cs cls letters acc lv : dest_cls cls -> access_of_letters letters = Some acc ->
@@ -1060,7 +1065,7 @@ Section StmtCorrect.
       unfold decl_tail, bind, ret, get. cbn [as_pure cfg_params lookup ret]. unfold ret. rewrite Hx2.
       rewrite (cast_self_ok (mkpv (PVarL x) (pv_ty pv) (KVar x) []) pv st2 G2 eq_refl). cbv beta iota.
       rewrite (proj2 (goodpv_numeric pv G2)). rewrite (set_var_fresh x _ st2 Hx2). fold st3. step C2.
-      rewrite chk_nil by (unfold st3; cbn [st_pending]; exact Hp2). reflexivity. }
+      rewrite ?hyb_nil by (unfold st3; cbn [st_pending]; exact Hp2); rewrite chk_nil by (unfold st3; cbn [st_pending]; exact Hp2). reflexivity. }
     split.
     { split; [apply lst_ok_decl; assumption|]. split; [eapply st_ext_trans; eassumption|]. split; [repeat constructor|].
       intros HR Hrem HJ cs ms fuel cs' Hrel Himm Hce.
@@ -1106,7 +1111,7 @@ Section StmtCorrect.
   Proof.
     apply (sinv_skip V SEmpty [IEff empty_eff] EEmpty).
     - intros st Hp. rewrite lower_stmt_empty. unfold bind. rewrite touch_eq.
-      rewrite chk_nil by exact Hp. reflexivity.
+      rewrite ?hyb_nil by exact Hp; rewrite chk_nil by exact Hp. reflexivity.
     - repeat constructor.
     - reflexivity.
     - auto.
@@ -1129,7 +1134,7 @@ Section StmtCorrect.
   Proof.
     apply (sinv_skip V (SBlock SNil) [IEff empty_eff] EEmpty).
     - intros st Hp. rewrite lower_stmt_block_nil. unfold bind. rewrite touch_eq.
-      rewrite chk_nil by exact Hp. reflexivity.
+      rewrite ?hyb_nil by exact Hp; rewrite chk_nil by exact Hp. reflexivity.
     - repeat constructor.
     - reflexivity.
     - auto.
@@ -1258,7 +1263,7 @@ Section StmtCorrect.
       unfold bind at 1. unfold bind at 1. rewrite L2. unfold bind at 1. unfold ret at 1 2 3. cbv beta iota.
       unfold store_tail. cbn [as_pure]. unfold bind at 1. unfold ret at 1. unfold bind at 1. rewrite A1.
       erewrite bind_bind_OK by exact D1. unfold bind. rewrite touch_eq.
-      rewrite chk_nil by exact Hp2. reflexivity. }
+      rewrite ?hyb_nil by exact Hp2; rewrite chk_nil by exact Hp2. reflexivity. }
     split; [|reflexivity].
     split; [apply lst_ok_touched; exact Hok2|].
     split; [eapply st_ext_trans; [exact X1|]; eapply st_ext_trans; [exact X2 | apply st_ext_touched]|].
@@ -1371,7 +1376,7 @@ Section StmtCorrect.
     { rewrite lower_stmt_jump. unfold bind at 1. rewrite L2. unfold jump_tail. cbn [as_pure].
       unfold bind at 1. unfold ret at 1. unfold bind at 1. unfold need_numeric.
       rewrite (proj1 (goodpv_numeric pv G2)). unfold ret at 1. unfold bind at 1. rewrite J1.
-      unfold bind. rewrite touch_eq. rewrite chk_nil by exact Hp2. reflexivity. }
+      unfold bind. rewrite touch_eq. rewrite ?hyb_nil by exact Hp2; rewrite chk_nil by exact Hp2. reflexivity. }
     split; [|reflexivity].
     split; [apply lst_ok_touched; exact Hok2|].
     split; [eapply st_ext_trans; [exact X2 | apply st_ext_touched]|].
@@ -1493,7 +1498,7 @@ Section StmtCorrect.
     exists [IEff (mkle (EBranch (cond_of cfg pc) (le_term tseq) EEmpty) (item_tmps (IPure pc) ++ le_tmps tseq) false)], (touched st2).
     split.
     { rewrite lower_stmt_if. unfold bind. rewrite L1, L2. unfold if_tail. rewrite Emk. unfold bind. rewrite touch_eq.
-      rewrite chk_nil by exact Hp2. unfold ret. rewrite chk_nil by exact Hp2. reflexivity. }
+      rewrite ?hyb_nil by exact Hp2; rewrite chk_nil by exact Hp2. unfold ret. rewrite ?hyb_nil by exact Hp2; rewrite chk_nil by exact Hp2. reflexivity. }
     split; [|reflexivity].
     split; [apply lst_ok_touched; exact Hok2|].
     split; [eapply st_ext_trans; [exact X1|]; eapply st_ext_trans; [exact X2 | apply st_ext_touched]|].
@@ -1531,8 +1536,8 @@ Section StmtCorrect.
                        (item_tmps (IPure pc) ++ le_tmps tseq ++ le_tmps eseq) false)], st3.
     split.
     { rewrite lower_stmt_if. unfold bind. rewrite L1, L2. unfold if_tail. rewrite Emk. unfold bind. rewrite touch_eq.
-      rewrite chk_nil by exact Hp2. rewrite L3. rewrite Emke. unfold bind, ret.
-      rewrite chk_nil by exact Hp3. rewrite chk_nil by exact Hp3. reflexivity. }
+      rewrite ?hyb_nil by exact Hp2; rewrite chk_nil by exact Hp2. rewrite L3. rewrite Emke. unfold bind, ret.
+      rewrite ?hyb_nil by exact Hp3; rewrite chk_nil by exact Hp3. rewrite ?hyb_nil by exact Hp3; rewrite chk_nil by exact Hp3. reflexivity. }
     split; [|intros _; eapply st_ext_nonempty; [exact X3 | reflexivity]].
     split; [exact Hok3|].
     split; [eapply st_ext_trans; [exact X1|]; eapply st_ext_trans; [exact X2 | exact X23]|].
